@@ -112,6 +112,14 @@ def cases(ctx):
                     steps.append(["rx", kind.format(cand) + "\n"])
                 steps.append(["rx", PROBES[start % len(PROBES)]])
             yield {"version": initial, "steps": steps}
+    # sessions end and begin (cleanly, through a transport error, with a first attempt to come back that is refused or given
+    # up): the reported version and the rules in force still agree, probes show which rules those are
+    for report in ("2.2.0", "2.3.2", "2.1.1", "2.0.0", "1.5.0", "1.4.1"):
+        for form in ("0;255;3;0;2;{}\n", "0;255;0;0;18;{}\n"):
+            for how in (None, "transport-error", "connect-refused", "connect-cancelled"):
+                if ctx.mine():
+                    yield {"version": None, "steps": PRE + [["rx", form.format(report)], ["reenter", how] if how else ["reenter"]]
+                           + [["rx", p] for p in PROBES]}
     # random histories with many version reports
 
     for i in range(ctx.pick(300, 100000) // ctx.shard_count):
